@@ -14,7 +14,14 @@ import tempfile
 from .. import common
 from ..common import Stats, Run, pmap, chunks, fork_histories
 
-GENERATORS = ("dbc", "can_c", "cpp", "nop")
+GENERATORS = ("dbc", "can_c", "cpp", "nop", "fcpmcstub")
+
+# the stub plug-in fcp_fcpmcstub (fcpmc/stubs): nested output paths, a 'field' check, an uncategorized check
+import sys as _sys
+
+_STUBS = os.path.join(os.path.dirname(os.path.dirname(os.path.abspath(__file__))), "stubs")
+if _STUBS not in _sys.path:
+    _sys.path.insert(0, _STUBS)
 
 GOOD = {
     "can1": 'version: "3"\nenum E { a = 0, b = 2, }\nstruct A { x @0: u8, y @1: i16, e @2: E, }\nstruct B { p @0: u32, q @1: [u8, 2], }\nimpl can for A { id: 10, device: "ecu", period: 5, }\nimpl can for B { id: 11, device: "ecu", bus: "bus2", }\n',
@@ -34,6 +41,7 @@ BAD = {
 }
 BAD_PLUGIN = {
     "dbc": {"dup-can-id": 'version: "3"\nstruct A { x @0: u8, }\nstruct B { z @0: u8, }\nimpl can for A { id: 1, device: "ecu", }\nimpl can for B { id: 1, device: "ecu", }\n', "unknown-struct": 'version: "3"\nstruct A { x @0: u8, }\nimpl can for A { id: 1, }\nimpl can for Zz { id: 2, }\n'},
+    "fcpmcstub": {"forbidden-field-last": 'version: "3"\nstruct A { x @0: u8, }\nstruct B { y @0: u8, forbidden @1: u8, }\n', "forbidden-field-first": 'version: "3"\nstruct A { forbidden @0: u8, z @1: u8, }\nstruct B { y @0: u8, }\n', "no-structs": 'version: "3"\nenum E { a = 0, }\n'},
     "can_c": {"over-64": 'version: "3"\nstruct A { x @0: u8, }\nstruct W { a @0: u64, b @1: u1, }\nimpl can for A { id: 1, device: "ecu", }\nimpl can for W { id: 2, device: "ecu", }\n', "unknown-struct": 'version: "3"\nstruct A { x @0: u8, }\nimpl can for A { id: 1, }\nimpl can for Zz { id: 2, }\n'},
 }
 
@@ -56,6 +64,7 @@ def make_dir_state(root, state, future_names):
     os.makedirs(out)
     if state == "stale-output":
         for n in future_names[:2] or ["default.fcp"]:
+            os.makedirs(os.path.dirname(os.path.join(out, n)), exist_ok=True)
             with open(os.path.join(out, n), "w") as f:
                 f.write("STALE " + n + "\n" + "/* stale tail that is longer than any generated file */\n" * 20000)
     elif state == "same-but-lf":
@@ -238,7 +247,13 @@ def judge_accept(S, inp, gen_name, fcp_text, before, out, scratch, verdict, deta
         bad = [k for k in exp if exp[k] != got[k]]
         if bad:
             S.violation("C10.accept", "C10.accept/written-contents-differ/%s/%s" % (gen_name, tag), inp, expected={k: exp[k][:300] for k in bad[:2]}, actual={k: got[k][:300] for k in bad[:2]})
-    newdirs = [k for k in after if k.startswith("dir:") and k not in before and before.get("<missing>") is None]
+    wanted_dirs = set()
+    for k in exp:
+        d = os.path.dirname(k)
+        while d:
+            wanted_dirs.add("dir:" + os.path.normpath(d))
+            d = os.path.dirname(d)
+    newdirs = [k for k in after if k.startswith("dir:") and k not in before and before.get("<missing>") is None and k not in wanted_dirs]
     if newdirs:
         S.violation("C10.accept", "C10.accept/unexpected-directory/%s" % gen_name, inp, expected="no new directories", actual=newdirs)
 
